@@ -84,7 +84,7 @@ def worker(modname, seed, cases, workdir, out, known):
         n = max(1, int(cases * sub.get("share", 1.0) / total_share))
         last = {}
 
-        def body(case, sub=sub, st=st, last=last):
+        def body(case):
             d = ctx.tmpdir()
             try:
                 try:
@@ -202,7 +202,7 @@ def replay(modname, case_file_json, env):
         if sub["name"] == subname:
             wd = tempfile.mkdtemp(prefix="replay-", dir="/verif/build/work")
             try:
-                ctx = Ctx(env, wd, ())
+                ctx = Ctx(env, wd, [k for k in env.get("VV_KNOWN", "").split(",") if k])
                 d = ctx.tmpdir()
                 r = sub["run"](case_file_json["case"], ctx, d)
             finally:
